@@ -60,6 +60,7 @@ import Clem.Model.Apply
 import Clem.Model.Gel
 import Clem.Model.Sched
 import Clem.Model.Refl
+import Clem.Model.Snap
 
 namespace Clem.Compose
 
@@ -156,6 +157,11 @@ structure Cfg (α : Type) where
   `t2.quality.*` (the `lex` field is ignored: BM25 scores are an oracle per query) -/
   hyb : Clem.T2.HCfg α
   qual : Clem.T2.QCfg α
+  /-- C06's float operations (`round(x, 6)` …), `str()/float()/int()` and the GEL clamp bounds / prune epsilon the
+  snapshot writer and loader use (`_graph_bounds_from_cfg`) -/
+  wops : Clem.Snap.WOps α
+  cv : Clem.Snap.Cv α
+  snapB : Clem.Snap.Bounds α
   /-- `t3.allow_reflection`, `t3.reflection.*`, `scheduler.budgets.ops_reflection / time_ms_reflection` (C19's `Cfg`) -/
   refl : Clem.Refl.Cfg
   /-- `scheduler.enabled`: `none` = off; `some b` = the slice budgets `_derive_budgets` produces (C17's `Budgets`) -/
@@ -177,6 +183,10 @@ structure Oracles (α : Type) where
   /-- what `gel.merge_candidates` / `gel.split_candidates` answered this turn (oracles, as in C18) -/
   merges : List (Clem.Gel.MergeRec α)
   splits : List Clem.Gel.SplitRec
+  /-- the episodes `write_reflection_entries` has added to the memory index before this turn, as C11 sees them (id =
+  the sha256-based `_episode_id`, cluster, quarter, token set: functions of text / ts the model does not compute);
+  aligned with `State.mem`; the cosine lists of `queries` run over the initial episodes followed by these -/
+  memEps : List (Clem.T2.Ep α) := []
 
 structure TurnIn (α : Type) where
   text : Str
@@ -190,6 +200,8 @@ structure TurnIn (α : Type) where
   hookDeltas : List (Clem.T4.Delta α)
   /-- `int(getattr(ctx, "slice_idx", 0) or 0)` (the rig builds a fresh ctx per turn: 0) -/
   sliceIdxPrev : Int := 0
+  /-- `ctx.agent_id` of this turn when the history alternates agents on one state (`none`: the world's agent) -/
+  agent : Option Str := none
 
 /-- What a history carries from turn to turn: the store's weight map, the version counter, and (caches ON) the
 process-global T1 result cache — keyed by (graph, sorted seed ids); the rest of the real key (etag, config) is
@@ -207,6 +219,13 @@ structure State (α : Type) where
   /-- number of reflection episodes `write_reflection_entries` has added to the memory index so far.  Nothing in
   the model reads it: the harness keeps them invisible to retrieval (owner = the agent, `owner_scope = world`) -/
   memN : Nat := 0
+  /-- `state.graph`'s containers carry the schema tag "v1.1" (created by the boot hook / a load) rather than "v1" -/
+  gelV11 : Bool := false
+  /-- body of this agent's snapshot file (last write wins); `none`: nothing written yet -/
+  lastSnap : Option (Clem.Py.JV.J α) := none
+  /-- the reflection entries written to the memory index so far, in write order (`memN` = its length when the
+  history starts with `mem = []`): they ARE visible to later retrievals, under the owner `"agent"` -/
+  mem : List Clem.Refl.Written := []
 
 /-! ## glue 1: world → T1 graphs (string ids ranked under code-point order) -/
 
@@ -335,12 +354,28 @@ def hybridInfo {α : Type} [Clem.T2.Num α] (h : Clem.T2.HCfg α) (items : List 
 
 /-- one `t2_semantic(ctx, state, text, t1)` call (rerank layers as configured, GEL edges `g` of the state at the
 time of the call); `none` = the oracle has no entry for the query text the glue computed. -/
-def t2Call {α : Type} [Clem.T2.Num α] (w : World α) (c : Cfg α) (o : Oracles α) (g : Clem.Gel.State α) (q : Str) :
-    Option (Clem.T2.Out α) :=
+def sAgentLit : Str := [97, 103, 101, 110, 116]
+
+/-- a written reflection entry as the memory index holds it: `owner = "agent"` (the literal — not the agent's id),
+the summary text, a vector iff the writer embedded it; id / ts / cluster / quarter / tokens from the oracle -/
+def memEp {α : Type} (wr : Clem.Refl.Written) (oe : Clem.T2.Ep α) : Clem.T2.Ep α :=
+  { oe with owner := .str sAgentLit, text := wr.text, hasVec := wr.vec }
+
+/-- the memory index at the start of a turn: the initial episodes, then every entry written so far, in write order
+(`InMemoryIndex.add` appends; nothing is ever removed) -/
+def epsAt {α : Type} (w : World α) (mem : List Clem.Refl.Written) (o : Oracles α) : List (Clem.T2.Ep α) :=
+  w.eps ++ List.zipWith memEp mem o.memEps
+
+/-- the oracle does not describe the entries the model says were written (count or texts differ) -/
+def memMiss {α : Type} (mem : List Clem.Refl.Written) (o : Oracles α) : Bool :=
+  mem.map (·.text) != o.memEps.map (·.text)
+
+def t2Call {α : Type} [Clem.T2.Num α] (w : World α) (c : Cfg α) (o : Oracles α) (g : Clem.Gel.State α) (q : Str)
+    (mem : List Clem.Refl.Written := []) : Option (Clem.T2.Out α) :=
   match lookupQ o q with
   | none => none
   | some qo =>
-    some (Clem.T2.t2 (t2Cfg w c o qo) c.tiers (withCos w.eps qo.cos) (hybOf c g) (qualOf c qo) (t2K c) c.residualCap
+    some (Clem.T2.t2 (t2Cfg w c o qo) c.tiers (withCos (epsAt w mem o) qo.cos) (hybOf c g) (qualOf c qo) (t2K c) c.residualCap
       (gnodes w))
 
 /-- numpy's pairwise summation as `np.mean` / `np.add.reduce` run it on a contiguous float64 vector
@@ -428,17 +463,26 @@ structure RagSt (α : Type) where
   /-- the oracle had no entry for the second query -/
   miss : Bool
   retrievedIds : List Str
+  /-- the texts of the hits of the second `t2_semantic` call, in order (`none`: no second call) — what it leaves in
+  `ctx.turn_artifacts["t2_snippets"]` is `artsOf` of these -/
+  texts2 : Option (List Str) := none
+
+/-- `ctx.turn_artifacts["t2_snippets"]` as a `t2_semantic` call leaves it: the non-empty texts of
+`retrieved[:topk_snippets]` -/
+def artsOf (texts : List Str) (k : Int) : List Str :=
+  (Clem.Refl.pyTake k texts).filter Clem.Refl.nonEmpty
 
 def ragStep {α : Type} [Clem.T2.Num α] [Clem.T3.PyOrd α] (w : World α) (c : Cfg α) (o : Oracles α)
     (t : TurnIn α) (labels : List Str) (b : Clem.T3.Bundle α) (p : PlanSt α)
-    (g : Clem.Gel.State α := none) : RagSt α :=
+    (g : Clem.Gel.State α := none) (mem : List Clem.Refl.Written := []) : RagSt α :=
   if p.ops.any Clem.T3.Op.isRetrieve && decide (1 ≤ c.maxRagLoops) then
     let q2 := queryText (ragQuery t) labels
-    let r2 := t2Call w c o g q2
+    let r2 := t2Call w c o g q2 mem
     let r := Clem.T3.ragOnce b p.ops (fun _ => match r2 with | some x => hitsOf x | none => []) false
     -- `rag_once` rebuilds the Plan without `deltas` when it refines
-    ⟨⟨r.ops, if r.ragUsed then [] else p.deltas⟩, r.ragUsed, r.calls.length, r2.isNone && r.ragUsed, r.retrievedIds⟩
-  else ⟨p, false, 0, false, []⟩
+    ⟨⟨r.ops, if r.ragUsed then [] else p.deltas⟩, r.ragUsed, r.calls.length, r2.isNone && r.ragUsed, r.retrievedIds,
+     if r.calls.isEmpty then none else some (match r2 with | some x => x.retrieved.map (·.text) | none => [])⟩
+  else ⟨p, false, 0, false, [], none⟩
 
 /-! ## glue 6: dialogue (default template, no style prefix) -/
 
@@ -530,6 +574,170 @@ def callsOf {α : Type} (approved : List (Clem.T4.Delta α)) (calls : List (List
     List (List (Clem.T4.Delta α)) :=
   calls.map (fun b => b.filterMap (fun i => approved[i]?))
 
+
+/-! ## glue 9: snapshots and boot (C06's `Clem.Snap` payload model)
+
+On cadence turns `apply_changes` calls `write_snapshot(ctx, state, version_etag, applied, approved)`: the body is
+C06's `payloadOf` of the turn id, agent, new version, applied count, serialised approved deltas, the store's weight
+map AFTER the batch and `state.graph` (the GEL store after tick / maintenance; sanitised, rounded and re-keyed by the
+payload model).  A fresh process boots once, before its first turn (`load_latest_snapshot`): `state.graph` /
+`state.gel` become empty v1.1 containers, and if the snapshot directory holds a body, version, store weights and the
+GEL section are restored from it (C06's `loadFrom`).  NOT carried by a snapshot: the T1 / T2 caches, the memory
+index, `state.meta` (cooldown history). -/
+section snap
+open Clem.Py.JV
+
+/-- `"last_seen_turn"` -/
+def kLst : Str := [108, 97, 115, 116, 95, 115, 101, 101, 110, 95, 116, 117, 114, 110]
+/-- `"label"` -/
+def kLabel : Str := [108, 97, 98, 101, 108]
+/-- `"kind"` -/
+def kKind : Str := [107, 105, 110, 100]
+/-- `"concept"` -/
+def sConcept : Str := [99, 111, 110, 99, 101, 112, 116]
+/-- `"size"` -/
+def kSize : Str := [115, 105, 122, 101]
+/-- `"avg_w"` -/
+def kAvgW : Str := [97, 118, 103, 95, 119]
+/-- `"diameter"` -/
+def kDiameter : Str := [100, 105, 97, 109, 101, 116, 101, 114]
+/-- `"signature"` -/
+def kSignature : Str := [115, 105, 103, 110, 97, 116, 117, 114, 101]
+/-- `"original"` -/
+def kOriginal : Str := [111, 114, 105, 103, 105, 110, 97, 108]
+/-- `"parts"` -/
+def kParts : Str := [112, 97, 114, 116, 115]
+/-- `"removed_edges"` -/
+def kRemovedEdges : Str := [114, 101, 109, 111, 118, 101, 100, 95, 101, 100, 103, 101, 115]
+/-- `"orig_edges"` -/
+def kOrigEdges : Str := [111, 114, 105, 103, 95, 101, 100, 103, 101, 115]
+/-- `"delta"` -/
+def kDelta : Str := [100, 101, 108, 116, 97]
+/-- `"op_idx"` -/
+def kOpIdx : Str := [111, 112, 95, 105, 100, 120]
+/-- `"idx"` -/
+def kIdx : Str := [105, 100, 120]
+/-- `"coact"` -/
+def kCoactN : Str := [99, 111, 97, 99, 116]
+
+variable {α : Type}
+
+def attrsJ (e : Clem.Gel.Edge α) : J α :=
+  .obj ((match e.coact with | some n => [(kCoactN, .int n)] | none => []) ++
+        (match e.lst with | .absent => [] | .null => [(kLst, .null)] | .at t => [(kLst, .int t)]))
+
+/-- one record of `state.graph["edges"]` as gel.py keeps it -/
+def edgeJ (e : Clem.Gel.Edge α) : Str × J α :=
+  (e.key, .obj [(Clem.Snap.kId, .str e.key), (Clem.Snap.kSrc, .str e.src), (Clem.Snap.kDst, .str e.dst),
+                (Clem.Snap.kWeight, .num e.w), (Clem.Snap.kRel, .str (if e.concept then sConcept else Clem.Snap.sCoact)),
+                (Clem.Snap.kUpdatedAt, .null), (Clem.Snap.kAttrs, attrsJ e)])
+
+def nodeJ (n : Clem.Gel.Node) : Str × J α :=
+  (n.id, .obj [(Clem.Snap.kId, .str n.id), (kLabel, .str n.label), (Clem.Snap.kAttrs, .obj [(kKind, .str sConcept)])])
+
+def mergeJ (r : Clem.Gel.MergeRec α) : J α :=
+  .obj [(Clem.Snap.kNodes, .arr (r.nodes.map .str)), (kSize, .int r.size), (kAvgW, .num r.avgW),
+        (kDiameter, .int r.diameter), (kSignature, .str r.sig)]
+
+def splitJ (r : Clem.Gel.SplitRec) : J α :=
+  .obj [(kOriginal, .arr (r.original.map .str)), (kParts, .arr (r.parts.map (fun p => .arr (p.map .str)))),
+        (kRemovedEdges, .int r.removed), (kOrigEdges, .int r.orig), (kSignature, .str r.sig)]
+
+/-- `state.graph` as a JSON-shaped value (`v11`: the containers were created by the boot hook / a load, schema tag
+"v1.1"; else by `_ensure_graph_store`, tag "v1") -/
+def gelJ (g : Clem.Gel.Store α) (v11 : Bool) : J α :=
+  .obj [(Clem.Snap.kNodes, .obj (g.nodes.map nodeJ)), (Clem.Snap.kEdges, .obj (g.edges.map edgeJ)),
+        (Clem.Snap.kMeta, .obj ([(Clem.Snap.kSchema, .str (if v11 then Clem.Snap.sV11 else Clem.Snap.sV1)),
+          (Clem.Snap.kMerges, .arr (g.merges.map mergeJ)), (Clem.Snap.kSplits, .arr (g.splits.map splitJ)),
+          (Clem.Snap.kPromotions, .arr []), (Clem.Snap.kCnc, .int g.conceptCount)] ++
+          (match g.edgesCount with | some n => [(Clem.Snap.kEdgesCount, .int n)] | none => [])))]
+
+def gelStateJ (g : Clem.Gel.State α) (v11 : Bool) : J α :=
+  match g with
+  | none => .null
+  | some st => gelJ st v11
+
+/-- `_serialize_deltas(approved)` -/
+def deltaJ (d : Clem.T4.Delta α) : J α :=
+  .obj [(Clem.Snap.kTargetKind, .str d.kind), (Clem.Snap.kTargetId, .str d.id), (Clem.Snap.kAttr, .str d.attr),
+        (kDelta, .num d.delta), (kOpIdx, match d.opIdx with | some i => .int i | none => .null),
+        (kIdx, match d.idx with | some i => .int i | none => .null)]
+
+def wToStore (w : List ((Str × Str × Str) × α)) : Clem.Snap.Store α :=
+  .wmap (w.map (fun p => ([p.1.1, p.1.2.1, p.1.2.2], p.2)))
+
+def wOfStore (m : List (List Str × α)) : List ((Str × Str × Str) × α) :=
+  m.filterMap (fun p => match p.1 with | [a, b, c] => some ((a, b, c), p.2) | _ => none)
+
+/-! ### boot: J → GEL store -/
+
+def strOfJ : J α → Str
+  | .str s => s
+  | _ => []
+
+def strsOfJ : J α → List Str
+  | .arr xs => xs.map strOfJ
+  | _ => []
+
+def intOfJ : J α → Int
+  | .int n => n
+  | _ => 0
+
+def edgeOfJ (zero : α) (p : Str × J α) : Option (Clem.Gel.Edge α) :=
+  match p.2 with
+  | .obj kv =>
+    let attrs : List (Str × J α) := match aget Clem.Snap.kAttrs kv with | some (.obj a) => a | _ => []
+    some { key := p.1, src := strOfJ (getD Clem.Snap.kSrc (.str []) kv), dst := strOfJ (getD Clem.Snap.kDst (.str []) kv),
+           w := (match aget Clem.Snap.kWeight kv with | some (.num x) => x | _ => zero),
+           concept := strOfJ (getD Clem.Snap.kRel (.str []) kv) == sConcept,
+           coact := (match aget kCoactN attrs with | some (.int n) => some n.toNat | _ => none),
+           lst := (match aget kLst attrs with | none => .absent | some (.int t) => .at t | some _ => .null) }
+  | _ => none
+
+def nodeOfJ (p : Str × J α) : Option Clem.Gel.Node :=
+  match p.2 with
+  | .obj kv => some ⟨p.1, strOfJ (getD kLabel (.str []) kv)⟩
+  | _ => none
+
+def mergeOfJ (zero : α) : J α → Option (Clem.Gel.MergeRec α)
+  | .obj kv => some ⟨strsOfJ (getD Clem.Snap.kNodes (.arr []) kv), intOfJ (getD kSize (.int 0) kv),
+                     (match aget kAvgW kv with | some (.num x) => x | _ => zero), intOfJ (getD kDiameter (.int 0) kv),
+                     strOfJ (getD kSignature (.str []) kv)⟩
+  | _ => none
+
+def splitOfJ : J α → Option Clem.Gel.SplitRec
+  | .obj kv => some ⟨strsOfJ (getD kOriginal (.arr []) kv),
+                     (match getD kParts (.arr []) kv with | .arr ps => ps.map strsOfJ | _ => []),
+                     intOfJ (getD kRemovedEdges (.int 0) kv), intOfJ (getD kOrigEdges (.int 0) kv),
+                     strOfJ (getD kSignature (.str []) kv)⟩
+  | _ => none
+
+def listOfJ : J α → List (J α)
+  | .arr xs => xs
+  | _ => []
+
+/-- the GEL store gel.py sees after `load_latest_snapshot` put the sanitised section on the state -/
+def storeOfGel (zero : α) (g : Clem.Snap.Gel α) : Clem.Gel.Store α :=
+  { nodes := g.nodes.filterMap nodeOfJ, edges := g.edges.filterMap (edgeOfJ zero),
+    merges := (listOfJ (getD Clem.Snap.kMerges (.arr []) g.mta)).filterMap (mergeOfJ zero),
+    splits := (listOfJ (getD Clem.Snap.kSplits (.arr []) g.mta)).filterMap splitOfJ,
+    conceptCount := (intOfJ (getD Clem.Snap.kCnc (.int 0) g.mta)).toNat,
+    edgesCount := (match aget Clem.Snap.kEdgesCount g.mta with | some (.int n) => some n.toNat | _ => none) }
+
+/-- `{"nodes": {}, "edges": {}, "meta": dict(empty_meta)}` -/
+def bootEmptyStore : Clem.Gel.Store α := ⟨[], [], [], [], 0, some 0⟩
+
+def isDigitsS (s : Str) : Bool := !s.isEmpty && s.all (fun ch => decide (48 ≤ ch) && decide (ch ≤ 57))
+
+/-- `state.version_etag = str(ver)` as `_bump_version_etag` will read it (`int(current)`) -/
+def verOfStr (s : Str) : Clem.Apply.Ver :=
+  if isDigitsS s then .num (s.foldl (fun n ch => 10 * n + ((ch - 48 : Nat) : Int)) 0)
+  else match s with
+    | 45 :: r => if isDigitsS r then .num (-(r.foldl (fun n ch => 10 * n + ((ch - 48 : Nat) : Int)) 0)) else .junk
+    | _ => .junk
+
+end snap
+
 /-! ## the turn -/
 
 structure TurnOut (α : Type) where
@@ -570,6 +778,8 @@ structure TurnOut (α : Type) where
   hinfo : HInfo
   /-- the reflection tail: reached / `reflect` called / entries handed to the index / telemetry record -/
   refl : Clem.Refl.TurnOut
+  /-- the snapshot body written this turn -/
+  snapBody : Option (Clem.Py.JV.J α)
   /-- scheduler: the boundary the turn returned at and why (`none`: ran to the end); did the T2 stage run -/
   yielded : Option (Clem.Sched.Stage × Clem.Sched.YReason)
   t2Ran : Bool
@@ -610,7 +820,7 @@ here — it only changes the constants `cache_enabled / cache_used / cache_misse
 reranker on, the stage also reads the GEL store, which that key ignores (C05's finding `t2:state`): the harness
 keeps the stage cache off in hybrid worlds.) -/
 def t2Stage : T2St α :=
-  let fresh := t2Call w c o s.gel (qOf w c s t)
+  let fresh := t2Call w c o s.gel (qOf w c s t) s.mem
   let out := fresh.getD (emptyT2 c)
   let hi := if fresh.isSome then hybridInfo (hybOf c s.gel) (out.pre.map (·.1)) else .absent
   if c.orchCacheOn then
@@ -705,8 +915,8 @@ def gelObsOut : Clem.Gel.ObsOut := (Clem.Gel.observe c.gel s.gel (gelItems w c s
 def gelTickOut : Clem.Gel.TickOut := (Clem.Gel.tick c.gel c.pw (gelAfterObs w c s t o) 1 (some t.turnId)).2
 
 def ragOf : RagSt α :=
-  if t3On c t then ragStep w c o t (labelsOf w c s t) (bundleOf w c s t o) (plan0Of w c s t o) (gelAfterObs w c s t o)
-  else ⟨plan0Of w c s t o, false, 0, false, []⟩
+  if t3On c t then ragStep w c o t (labelsOf w c s t) (bundleOf w c s t o) (plan0Of w c s t o) (gelAfterObs w c s t o) s.mem
+  else ⟨plan0Of w c s t o, false, 0, false, [], none⟩
 /-- the plan that reaches speak and T4 -/
 def planFinal : PlanSt α := (ragOf w c s t o).plan
 def t4InOf : Clem.T4.Input α := t4Input w c t (planFinal w c s t o)
@@ -740,7 +950,12 @@ def decStr (i : Int) : Str := if i < 0 then 45 :: digitsAux 24 i.natAbs [] else 
 def reflIn : Clem.Refl.TurnIn :=
   { agent := w.agent, turn := decStr t.turnId, nowMs := some 0, isoPreset := none, dry := t.dryRun, t4on := c.t4Enabled,
     planFlag := false, stateFlag := w.reflFlag, cfg := c.refl, utter := utterOfTurn w c s t o,
-    items := (t2Of w c s t o).retrieved.map (·.text), arts := [] }
+    items := (t2Of w c s t o).retrieved.map (·.text)
+    -- the LAST `t2_semantic` call of the turn wrote the artifacts: `rag_once`'s second retrieval if it happened, else
+    -- the stage's own call; a result served by the orchestrator's cache writes none (the rig's ctx is fresh per turn)
+    arts := match (ragOf w c s t o).texts2 with
+      | some a => artsOf a c.refl.topk
+      | none => if (t2Stage w c s t o).hit then [] else artsOf ((t2Of w c s t o).retrieved.map (·.text)) c.refl.topk }
 
 /-- no fault, rule-based backend, logical clock (elapsed 0) -/
 def reflOrc : Clem.Refl.Oracles := ⟨.real, .missing, 0, false, false, false, [], false⟩
@@ -750,6 +965,20 @@ def reflOut : Clem.Refl.TurnOut :=
   if (yieldOf w c s t o).isSome then Clem.Refl.notReached
   else (Clem.Refl.tail true Clem.Refl.CtxSt.fresh (reflIn w c s t o) reflOrc).2
 
+/-! ### snapshot written by Apply on cadence turns -/
+
+def snapIn : Clem.Snap.WriteIn α :=
+  { turn := .int t.turnId, agent := .str w.agent, version := .str (decStr (applyOf w c s t o).version),
+    applied := (applyOf w c s t o).applied, deltas := .arr ((t4Of w c s t o).approved.map deltaJ),
+    store := wToStore (storeBatch c s.w (t4Of w c s t o).approved).w,
+    graph := gelStateJ (gelNext w c s t o) s.gelV11, gel := gelStateJ (gelNext w c s t o) s.gelV11 }
+
+/-- the JSON body of `state_<agent>.json` this turn writes (`none`: no snapshot this turn) -/
+def snapBody : Option (Clem.Py.JV.J α) :=
+  if commits w c s t o && (applyOf w c s t o).snap.isSome then
+    some (Clem.Snap.payloadOf c.wops c.cv c.snapB (snapIn w c s t o))
+  else none
+
 def nextState : State α :=
   { w := if commits w c s t o then (storeBatch c s.w (t4Of w c s t o).approved).w else s.w
     ver := if commits w c s t o then .num (applyOf w c s t o).version else s.ver
@@ -757,13 +986,17 @@ def nextState : State α :=
     orchH := if !reach w c s t o 0 then s.orchH
              else if commits w c s t o && c.bust && c.orchCacheOn then [] else (t2Stage w c s t o).orchH
     gel := gelNext w c s t o
-    memN := s.memN + (reflOut w c s t o).written.length }
+    memN := s.memN + (reflOut w c s t o).written.length
+    gelV11 := s.gelV11
+    lastSnap := match snapBody w c s t o with | some b => some b | none => s.lastSnap
+    mem := s.mem ++ (reflOut w c s t o).written }
 
 def runTurn : TurnOut α :=
   let r2 := t2Of w c s t o
   let full := reach w c s t o 2
   { t1 := t1Of w c s t, touched := idsOfTurn w c s t, labels := labelsOf w c s t, qText := qOf w c s t
-    oracleMiss := reach w c s t o 0 && ((t2Stage w c s t o).oracleMiss || (full && (ragOf w c s t o).miss)), t2 := r2
+    oracleMiss := reach w c s t o 0 &&
+      ((t2Stage w c s t o).oracleMiss || (full && (ragOf w c s t o).miss) || memMiss s.mem o), t2 := r2
     orchHit := reach w c s t o 0 && (t2Stage w c s t o).hit, orchSize := (t2Stage w c s t o).size
     simMax := simMax r2, simMean := simMean r2, scoreMax := scoreMax r2, scoreMean := scoreMean r2
     bundle := bundleOf w c s t o, t3Ran := t3On c t && full, planOps0 := (plan0Of w c s t o).ops
@@ -788,11 +1021,29 @@ def runTurn : TurnOut α :=
       else none
     hinfo := (t2Stage w c s t o).hinfo
     refl := reflOut w c s t o
+    snapBody := snapBody w c s t o
     yielded := yieldOf w c s t o
     t2Ran := reach w c s t o 0
     state := nextState w c s t o }
 
 end stages
+
+/-! ## process start: the boot hook (`load_latest_snapshot`), once, before the first turn of a fresh state -/
+
+/-- `body`: what the snapshot directory holds for the boot hook (`none`: no snapshot).  The graph containers are
+(re)created in any case; a readable body restores version, store weights and the GEL section. -/
+def bootOf {α : Type} (c : Cfg α) (s : State α) (body : Option (Clem.Py.JV.J α)) : State α :=
+  let base : State α := { s with gel := some bootEmptyStore, gelV11 := true, lastSnap := body }
+  match body with
+  | none => base
+  | some d =>
+    match Clem.Snap.loadFrom c.wops c.cv c.snapB d (wToStore s.w) with
+    | none => base
+    | some l =>
+      { base with
+        ver := (match l.version with | some v => verOfStr v | none => s.ver)
+        w := (match l.store with | .wmap m => wOfStore m | _ => s.w)
+        gel := some (storeOfGel c.wops.zero l.graph) }
 
 /-! ## histories -/
 
@@ -809,6 +1060,34 @@ def stepHist {α : Type} [Clem.T1.Num α] [Clem.T2.Num α] [Clem.T3.PyOrd α] [C
 def runTurns {α : Type} [Clem.T1.Num α] [Clem.T2.Num α] [Clem.T3.PyOrd α] [Clem.Py.Num α] [Clem.Py.NumGel α]
     (w : World α) (c : Cfg α) (s : State α) (ts : List (TurnIn α × Oracles α)) : Hist α :=
   ts.foldl (stepHist w c) ⟨[], s⟩
+
+/-! ## several agents on one state -/
+
+/-- the world as this turn's ctx sees it: same graphs, memory, meta; the turn's own agent id.  Everything an agent id
+reaches — T2's owner scope, the reflection entry ids, the snapshot's `agent` field (and file name), every record —
+reads it from here; the state (store, version, caches, GEL, memory index) is shared by all agents of the history. -/
+def wFor {α : Type} (w : World α) (t : TurnIn α) : World α :=
+  match t.agent with
+  | some a => { w with agent := a }
+  | none => w
+
+def stepHistMA {α : Type} [Clem.T1.Num α] [Clem.T2.Num α] [Clem.T3.PyOrd α] [Clem.Py.Num α] [Clem.Py.NumGel α]
+    (w : World α) (c : Cfg α) (h : Hist α) (t : TurnIn α × Oracles α) : Hist α :=
+  let o := runTurn (wFor w t.1) c h.state t.1 t.2
+  ⟨h.outs ++ [o], o.state⟩
+
+/-- a history whose turns may come from different agents (`TurnIn.agent`), all on ONE state -/
+def runTurnsMA {α : Type} [Clem.T1.Num α] [Clem.T2.Num α] [Clem.T3.PyOrd α] [Clem.Py.Num α] [Clem.Py.NumGel α]
+    (w : World α) (c : Cfg α) (s : State α) (ts : List (TurnIn α × Oracles α)) : Hist α :=
+  ts.foldl (stepHistMA w c) ⟨[], s⟩
+
+/-- a process boundary after `k` turns: the first process runs `ts.take k` from `s0`; a FRESH process (state `sF`,
+nothing carried but the snapshot directory) boots from the body the first one left behind and runs the rest -/
+def restartHist {α : Type} [Clem.T1.Num α] [Clem.T2.Num α] [Clem.T3.PyOrd α] [Clem.Py.Num α] [Clem.Py.NumGel α]
+    (w : World α) (c : Cfg α) (s0 sF : State α) (k : Nat) (ts : List (TurnIn α × Oracles α)) : Hist α :=
+  let h1 := runTurns w c s0 (ts.take k)
+  let h2 := runTurns w c (bootOf c sF h1.state.lastSnap) (ts.drop k)
+  ⟨h1.outs ++ h2.outs, h2.state⟩
 
 /-! ## link monitors (evaluated by the driver on what the REAL turn handed from stage to stage) -/
 
